@@ -88,9 +88,13 @@ pub fn run_c14(args: &Args) -> i32 {
     let report = Report::new("C14", args.tier, args.seed, "exploration");
     let reps = c14_reps();
     let mut n = 0u64;
+    let mut unequal_pairs = 0u64;
     for &a in &reps {
         for &b in &reps {
             n += 1;
+            if score_key(a) != score_key(b) {
+                unequal_pairs += 1;
+            }
             let d = c14_pair(a, b);
             report.record(&d, || json!({"kind": "pair", "a": score_name(a), "b": score_name(b)}));
         }
@@ -174,8 +178,8 @@ pub fn run_c14(args: &Args) -> i32 {
     report.finish(
         json!({
             "evaluations": n,
-            "distinct_nontrivial": (reps.len() * reps.len()) as u64,
-            "rule": "25 representative scores (both sentinels; mate distances 0,1,2,0x7fff,0x8000,0xfffe,0xffff for both colours; numeric MIN,MIN+1,-2,-1,0,1,2,MAX-1,MAX): all pairs (cmp, partial_cmp, ==, !=, <,<=,>,>=, max, min, antisymmetry) and all triples (transitivity). quick adds every mate distance against its neighbours and the representatives; thorough adds all 65536^2 ordered pairs of mate distances (same colour and cross colour) and all 2^32 numeric scores against 15 representatives. Non-trivial = distinct ordered representative pairs.",
+            "distinct_nontrivial": unequal_pairs,
+            "rule": "non-trivial = ordered pairs of DIFFERENT representative scores (counted). 25 representative scores (both sentinels; mate distances 0,1,2,0x7fff,0x8000,0xfffe,0xffff for both colours; numeric MIN,MIN+1,-2,-1,0,1,2,MAX-1,MAX): all pairs (cmp, partial_cmp, ==, !=, <,<=,>,>=, max, min, antisymmetry) and all triples (transitivity). quick adds every mate distance against its neighbours and the representatives; thorough adds all 65536^2 ordered pairs of mate distances (same colour and cross colour) and all 2^32 numeric scores against 15 representatives. Non-trivial = distinct ordered representative pairs.",
             "exhaustive": true,
             "all_mate_distance_pairs": exhaustive_mates,
             "samples": [{"a": score_name(reps[i]), "b": score_name(reps[j]), "cmp": format!("{:?}", reps[i].cmp(&reps[j]))}],
